@@ -3,7 +3,7 @@ import e2e
 SPEC = {
     "corr": [],
     "extra": [e2e.shutdown_cycles],
-    "rule": "end-to-end stop/start cycles of the built binary (6 quick / 120 thorough, run in parallel): traffic pattern idle / steady / "
+    "rule": "half of the ordinary cycles have a third run (templates announced again with another layout and acknowledged in the second run must be decoded with the new layout after the next restart); end-to-end stop/start cycles of the built binary (6 quick / 120 thorough, run in parallel): traffic pattern idle / steady / "
             "burst (up to 150 templates + 600 in-flight datagrams from 1..5 loopback exporters, IPFIX and NetFlow v9), traffic keeps "
             "arriving for 1.6 s across the stop, SIGTERM or SIGINT at a random offset; checks exit status 0, latency, stderr, both cache "
             "files complete and holding every template sent >= 300 ms before the signal, restart on the same files, data-only datagrams "
